@@ -301,7 +301,13 @@ func (w *World) nilFieldRule(r *Report, k *Kind) {
 			if ov.Type == nil {
 				continue
 			}
-			switch ov.Type.Underlying().(type) {
+			// the declared type of the field decides: &s.Header of an embedded struct value is a pointer
+			// expression, but the part itself cannot be nil
+			ft := declaredTypeAt(k.Named, ov.Path)
+			if ft == nil {
+				ft = ov.Type
+			}
+			switch ft.Underlying().(type) {
 			case *types.Interface, *types.Pointer:
 			default:
 				continue
@@ -357,4 +363,33 @@ func (w *World) nilFieldRule(r *Report, k *Kind) {
 			}
 		}
 	}
+}
+
+// declaredTypeAt resolves a receiver path ($.A.B) to the declared type of the last field, following
+// pointers and embedded structs; nil when the path cannot be resolved.
+func declaredTypeAt(root types.Type, path string) types.Type {
+	if !strings.HasPrefix(path, "$.") {
+		return nil
+	}
+	t := root
+	for _, name := range strings.Split(path[2:], ".") {
+		if strings.Contains(name, "[") || strings.Contains(name, "(") {
+			return nil
+		}
+		st := structOf(t)
+		if st == nil {
+			return nil
+		}
+		var ft types.Type
+		for i := 0; i < st.NumFields(); i++ {
+			if st.Field(i).Name() == name {
+				ft = st.Field(i).Type()
+			}
+		}
+		if ft == nil {
+			return nil
+		}
+		t = ft
+	}
+	return t
 }
